@@ -1193,6 +1193,56 @@ pub(crate) fn verify_mmr_proof<'a, T: Iterator<Item = &'a HeaderView>>(
         return Err(StatusCode::InvalidProof.with_context(errmsg));
     };
     let parent_chain_root = last_header.parent_chain_root();
+    let headers = headers.collect::<Vec<_>>();
+    // All numbers and total difficulties below are sent by the peer and the MMR library does
+    // unchecked arithmetic with them, so reject what can not belong to a valid proof at first:
+    // - the leaves and the proof items are sub-ranges of the chain root;
+    // - they are disjoint and cover the whole range, so their total difficulties sum up to the
+    //   total difficulty of the chain root (then no partial sum overflows).
+    {
+        let root_end_number: BlockNumber = parent_chain_root.end_number().unpack();
+        let root_total_difficulty: U256 = parent_chain_root.total_difficulty().unpack();
+        // The position of a leaf in the MMR is about twice its index.
+        if root_end_number >= BlockNumber::MAX / 4 {
+            let errmsg = format!(
+                "the end number {} of the chain root is too large",
+                root_end_number
+            );
+            return Err(StatusCode::InvalidProof.with_context(errmsg));
+        }
+        let mut total_difficulty = Some(U256::zero());
+        for header in &headers {
+            if header.number() > root_end_number {
+                let errmsg = format!(
+                    "block#{} is not in the chain root (end number: {})",
+                    header.number(),
+                    root_end_number
+                );
+                return Err(StatusCode::InvalidProof.with_context(errmsg));
+            }
+            total_difficulty =
+                total_difficulty.and_then(|total| total.checked_add(&header.difficulty()));
+        }
+        for header_digest in raw_proof.iter() {
+            let start_number: BlockNumber = header_digest.start_number().unpack();
+            let end_number: BlockNumber = header_digest.end_number().unpack();
+            if start_number > end_number || end_number > root_end_number {
+                let errmsg = format!(
+                    "the proof item [{}, {}] is not in the chain root (end number: {})",
+                    start_number, end_number, root_end_number
+                );
+                return Err(StatusCode::InvalidProof.with_context(errmsg));
+            }
+            let item_total_difficulty: U256 = header_digest.total_difficulty().unpack();
+            total_difficulty =
+                total_difficulty.and_then(|total| total.checked_add(&item_total_difficulty));
+        }
+        if total_difficulty != Some(root_total_difficulty) {
+            let errmsg = "the total difficulties of the headers and the proof items \
+                          do not sum up to the total difficulty of the chain root";
+            return Err(StatusCode::InvalidProof.with_context(errmsg));
+        }
+    }
     let proof: MMRProof = {
         let mmr_size = leaf_index_to_mmr_size(parent_chain_root.end_number().unpack());
         let proof = raw_proof
@@ -1204,6 +1254,7 @@ pub(crate) fn verify_mmr_proof<'a, T: Iterator<Item = &'a HeaderView>>(
 
     let digests_with_positions = {
         let res = headers
+            .into_iter()
             .map(|header| {
                 let index = header.number();
                 let position = leaf_index_to_pos(index);
